@@ -336,7 +336,7 @@ func init() {
 		ID:    "C07",
 		Level: "exploration",
 		Rule: "histories of 40-80 operations on a real PIT-CS table (insert / refresh with freshness absent/0/60 ms/1 h, exact and prefix lookups with both flags, capacity changes through SetCsCapacity, short sleeps) over names sharing prefixes (depth 1..4 over {a,b}), initial capacity 0..8; " +
-			"a reference model (name -> last wire, insertion interval, freshness, LRU-touch interval) decides every lookup (name relation, bytes, freshness outside a 15 ms guard band, must-find for cached exact names) and every insertion (size <= capacity, CsSize == walked entries, eviction count, victim is a possible LRU victim, cached-name set equality via the structural hook); distinct = (op, flags, hit/miss kind, eviction count, capacity class)",
+			"a reference model (name -> last wire, insertion interval, freshness, LRU-touch interval) decides every lookup (name relation, bytes, freshness outside a 15 ms guard band, must-find for cached exact names) and every insertion (size <= capacity, CsSize == walked entries, eviction count, victim is a possible LRU victim, cached-name set equality via the structural hook); distinct = (op, flags, hit/miss kind, eviction count, capacity class); mgmt: per batch one running mini daemon (2 forwarding threads, management thread, Content Store on) where a local application lowers the capacity with cs/config commands (to 0, 1, 2, k-1, k/2), Data is cached through the real pipeline, and per forwarding thread both the cached-packet count and the number of names a second application gets without the upstream seeing an Interest must be <= the configured capacity",
 		Assumptions: []string{"time-dependent expectations use the measured call interval and a 15 ms guard band; inside the band either outcome is accepted", "whether a CanBePrefix lookup counts as a use for LRU is left open (interval model)", "hooks: fw/table/verif_hooks.go (cached-name set)"},
 		Batches:     func(t bool) int { return 16 },
 		ChildTimeoutS: func(t bool) int {
